@@ -118,7 +118,11 @@ fn gen_tree(r: &mut Rng, depth: u32, path: &str, leaves: &mut Vec<String>) -> J 
     } else {
         let mut m = Map::new();
         for _ in 0..(1 + r.below(3)) {
-            let k = if r.chance(1, 6) { format!("{}", r.below(3)) } else { gen_ident(r) };
+            let k = match r.below(12) {
+                0 | 1 => format!("{}", r.below(3)),
+                2 => "variables".to_string(),
+                _ => gen_ident(r),
+            };
             if m.contains_key(&k) {
                 continue;
             }
@@ -254,9 +258,15 @@ fn check_binding(run: &Run, c: &Case, decoded: &BatchRequest) -> Result<u64, Str
             } else {
                 (0usize, p.clone())
             };
-            let Some(inner) = vpath.strip_prefix("variables.") else { continue };
+            let Some(inner) = vpath.strip_prefix("variables.") else {
+                run.count("paths_without_variables_prefix", 1);
+                continue; // not a variable path: addresses nothing
+            };
             if idx >= expected.len() || at_path(&expected[idx], inner).is_none() {
                 run.count("paths_addressing_nothing", 1);
+                if inner.starts_with("variables.") {
+                    run.count("paths_with_repeated_variables_prefix_addressing_nothing", 1);
+                }
                 continue; // addresses nothing: ignored by the model
             }
             let got = at_path(&observed[idx], inner).cloned().unwrap_or(J::Null);
@@ -267,7 +277,16 @@ fn check_binding(run: &Run, c: &Case, decoded: &BatchRequest) -> Result<u64, Str
                 return Err(format!("path {p:?} holds marker {k} but request {idx} has only {} uploads", reqs[idx].uploads.len()));
             };
             let bytes = read_upload(u)?;
-            if u.filename != f.filename || u.content_type != f.content_type || bytes != f.data {
+            // file parts that carry the same name as this one (a repeated part name): the map entry names the
+            // key, not one of the parts, so a reference to any part of that name is accepted
+            let same_key_other = c.files.iter().any(|g| g.present && !g.mapped && g.key == f.key && u.filename == g.filename && u.content_type == g.content_type && bytes == g.data);
+            if same_key_other {
+                run.count("paths_bound_to_a_later_part_of_a_repeated_name", 1);
+            }
+            if inner == "variables" || inner.starts_with("variables.") || inner.contains(".variables") {
+                run.count("paths_through_a_variable_or_member_named_variables_bound", 1);
+            }
+            if !same_key_other && (u.filename != f.filename || u.content_type != f.content_type || bytes != f.data) {
                 return Err(format!(
                     "path {p:?} is mapped to file {:?} (filename {:?}, content type {:?}, {} bytes {}) but references upload {k}: filename {:?}, content type {:?}, {} bytes {}",
                     f.key,
@@ -304,16 +323,34 @@ fn gen_case(r: &mut Rng) -> (Case, Vec<String>) {
     let nreq = if batch { 1 + r.below(3) } else { 1 };
     let mut leaves: Vec<String> = vec![];
     let mut reqs = vec![];
+    let mut has_var_named_variables = false;
     for i in 0..nreq {
         let mut vars = Map::new();
         let prefix = if batch { format!("{i}.variables") } else { "variables".to_string() };
         for _ in 0..(1 + r.below(3)) {
-            let k = if r.chance(1, 8) { format!("{}", r.below(3)) } else { gen_ident(r) };
+            let k = match r.below(16) {
+                0 | 1 => format!("{}", r.below(3)),
+                2 | 3 | 4 => "variables".to_string(),
+                _ => gen_ident(r),
+            };
             if vars.contains_key(&k) {
                 continue;
             }
             let v = gen_tree(r, 3, &format!("{prefix}.{k}"), &mut leaves);
             vars.insert(k, v);
+        }
+        // a variable literally named `variables` next to an unrelated variable that has the name of one of its members
+        if let Some(J::Object(inner)) = vars.get("variables").cloned() {
+            has_var_named_variables = true;
+            if r.bool()
+                && let Some(k) = inner.keys().next().cloned()
+                && !vars.contains_key(&k)
+            {
+                leaves.push(format!("{prefix}.{k}"));
+                vars.insert(k, J::Null);
+            }
+        } else if vars.contains_key("variables") {
+            has_var_named_variables = true;
         }
         reqs.push(json!({"query": format!("mutation M{i} {{ up }}"), "variables": J::Object(vars)}));
     }
@@ -344,6 +381,32 @@ fn gen_case(r: &mut Rng) -> (Case, Vec<String>) {
                 1 => (if batch { "9.variables.a" } else { "variables.no-such-either" }).to_string(),
                 _ => (if batch { "0.variables.no-such" } else { "variables.no-such" }).to_string(),
             });
+        }
+        if r.chance(1, 5)
+            && let Some(leaf) = leaves.pop()
+        {
+            // a path that is not of the form `variables.<path>` / `<n>.variables.<path>`: the `variables.` prefix is
+            // missing, or written twice (which would name a member of a variable called `variables`). It addresses
+            // nothing; the leaf it was derived from is used by no other path and must stay as sent.
+            let (idx, rest) = if batch {
+                let (i, rest) = leaf.split_once('.').unwrap();
+                (format!("{i}."), rest.to_string())
+            } else {
+                (String::new(), leaf.clone())
+            };
+            let inner = rest.strip_prefix("variables.").unwrap();
+            if r.bool() {
+                if !inner.starts_with("variables") {
+                    paths.push(match r.below(4) {
+                        0 => format!("{idx}{inner}"),
+                        1 => format!("{idx}variable.{inner}"),
+                        2 => format!("{idx}Variables.{inner}"),
+                        _ => format!("{idx}.{inner}"),
+                    });
+                }
+            } else if !has_var_named_variables {
+                paths.push(format!("{idx}variables.variables.{inner}"));
+            }
         }
         let len = *r.pick(&[0usize, 1, 2, 5, 17, 64, 200, 1000, 2047, 2048, 2049, 5000]);
         files.push(FileSpec {
@@ -378,11 +441,41 @@ fn binding_round(run: &Run, r: &mut Rng) {
         run.count("cases_with_unmapped_extra_file", 1);
     }
     let missing = r.chance(1, 5);
+    let mut missing_at = None;
     if missing {
         let i = r.below(c.files.len());
         if c.files[i].mapped {
             c.files[i].present = false;
+            missing_at = Some(i);
         }
+    }
+    // a part name that occurs twice (or three times): the further parts have the name of a mapped, present file
+    let mapped_present: Vec<usize> = (0..c.files.len()).filter(|&i| c.files[i].mapped && c.files[i].present).collect();
+    let mut duplicated = false;
+    if r.chance(1, 4) && !mapped_present.is_empty() {
+        // without a missing file so far: half of these cases also drop the part of another map entry
+        if missing_at.is_none() && mapped_present.len() >= 2 && r.bool() {
+            let i = *r.pick(&mapped_present);
+            c.files[i].present = false;
+        }
+        let candidates: Vec<usize> = (0..c.files.len()).filter(|&i| c.files[i].mapped && c.files[i].present).collect();
+        let of = *r.pick(&candidates);
+        let b = c.boundary.clone();
+        for _ in 0..(1 + r.below(2)) {
+            let len = r.below(60);
+            let same = r.chance(1, 4);
+            c.files.push(FileSpec {
+                key: c.files[of].key.clone(),
+                filename: if same { c.files[of].filename.clone() } else { gen_filename(r) },
+                content_type: gen_file_ct(r),
+                data: gen_bytes(r, len, &b),
+                paths: vec![],
+                mapped: false,
+                present: true,
+            });
+        }
+        duplicated = true;
+        run.count("cases_with_repeated_part_name", 1);
     }
     let missing = c.files.iter().any(|f| f.mapped && !f.present);
     build_body(r, &mut c);
@@ -398,6 +491,9 @@ fn binding_round(run: &Run, r: &mut Rng) {
         Ok(Err(e)) => {
             if missing {
                 run.count("missing_file_rejected", 1);
+                if duplicated {
+                    run.count("missing_file_rejected_although_another_part_name_repeats", 1);
+                }
             } else {
                 run.violation(&format!("bind-rejected:{h:x}"), &format!("well-formed upload request rejected: {e}"), case_json(&c));
             }
@@ -418,6 +514,9 @@ fn binding_round(run: &Run, r: &mut Rng) {
                     run.count("paths_bound", n);
                     if c.batch {
                         run.count("batch_requests_bound", 1);
+                    }
+                    if duplicated {
+                        run.count("requests_with_repeated_part_name_bound_to_a_part_of_that_name", 1);
                     }
                     if c.files.iter().any(|f| f.present && f.mapped && f.paths.len() >= 2) {
                         run.count("files_bound_to_several_paths", 1);
@@ -858,12 +957,17 @@ pub fn main() {
          upload.value(ctx); distinct by hash of the body (+limits); non-trivial = at least one mapped path",
     );
     run.assume("binding model = DESIGN A.6: mapped paths that address a variable become references to a copy of the file; paths addressing nothing and unmapped file parts are ignored; a map key without file part is an error");
+    run.assume("a part name that occurs more than once: the map entry names the key, so the mapped paths must refer to one of the parts of that name (which one is not asserted, nor what happens to the others); a missing part of ANOTHER map entry is still an error");
+    run.assume("a map path is `variables.<path>` (batch: `<n>.variables.<path>`), the prefix taken once: `variables.variables.f` names member f of the variable called `variables`; a path without the prefix names nothing");
     run.assume("only operations, map, then file parts (permuted) is generated - the order the graphql-multipart spec requires");
     run.assume("NOT judged (counted with reason guess): requests within both limits that are rejected (e.g. operations part larger than max_file_size, body larger than max_file_size*max_num_files)");
     run.assume("std::fs / tempfile deliver the bytes that were written");
     run.set_floors(1500, 500);
     for c in ["requests_bound_exactly", "batch_requests_bound", "files_bound_to_several_paths", "missing_file_rejected", "oversize_file_rejected",
-        "accepted_with_file_exactly_at_max_file_size", "accepted_with_exactly_max_num_files", "e2e_resolver_saw_mapped_bytes"]
+        "accepted_with_file_exactly_at_max_file_size", "accepted_with_exactly_max_num_files", "e2e_resolver_saw_mapped_bytes",
+        "missing_file_rejected_although_another_part_name_repeats", "requests_with_repeated_part_name_bound_to_a_part_of_that_name",
+        "paths_without_variables_prefix", "paths_with_repeated_variables_prefix_addressing_nothing",
+        "paths_through_a_variable_or_member_named_variables_bound"]
     {
         run.require_counter(c);
     }
